@@ -38,10 +38,24 @@ func c10State(st *engine.Step) {
 	configured := s.AB.Config.Modules.LogoutMethod
 	// the configured method is evaluated twice: fault-free, and with the handler's own user lookup failing
 	// (the only db.Load a logout request performs: the remember and expire middlewares never load a user)
-	for _, m := range []string{"GET", "POST", "DELETE", "HEAD", "PUT", "PATCH", "OPTIONS", "fault:db.Load"} {
+	for _, m := range []string{"GET", "POST", "DELETE", "HEAD", "PUT", "PATCH", "OPTIONS", "GET+_method", "POST+_method", "fault:db.Load"} {
 		cl := w.Clone()
 		rq := flows.Logout(s, b)
 		rq.Method = m
+		if strings.HasSuffix(m, "+_method") {
+			// a method-override parameter naming the configured method (query for GET, form field for POST)
+			m = strings.TrimSuffix(m, "+_method")
+			if m == configured {
+				continue
+			}
+			rq.Method = m
+			if m == "GET" {
+				rq.Path += "?_method=" + configured
+			} else {
+				rq.Form, rq.ForceForm = map[string]string{"_method": configured}, true
+				rq.Header = map[string]string{"X-HTTP-Method-Override": configured}
+			}
+		}
 		faulted := strings.HasPrefix(m, "fault:")
 		if faulted {
 			m = configured
